@@ -65,7 +65,7 @@ PROPS['C13'] = {
             'accessors, backward links and in_list flags). Non-trivial: the element count crossed a growth threshold and shrank again, or a '
             'copy/move/swap/assign between two non-empty containers happened (intrusive: a splice of two non-empty lists or a mid insert and '
             'mid erase); distinct = hash of the decoded history.',
-    'required_tags': ['kind-%d' % k for k in range(13)] + ['grew-then-shrank', 'pair-op-nonempty', 'splice-nonempty', 'sv-swap-inline-heap', 'sv-move-inline'],
+    'required_tags': ['kind-%d' % k for k in range(17)] + ['grew-then-shrank', 'pair-op-nonempty', 'splice-nonempty', 'sv-swap-inline-heap', 'sv-move-inline'],
     'min_cases': {'quick': 20000, 'thorough': 400000},
     'level_text': 'generated operation histories against std::vector/std::deque reference sequences, compared after every operation; held on everything generated',
     'level_note': 'trusts the std containers as reference, ASan+UBSan and the exact-size tracking allocator for the own-storage clause; the state of a moved-from container is not asserted, it is only required to stay readable',
@@ -145,7 +145,7 @@ PROPS['C17'] = {
             'and 3 with lvalue/const/rvalue arguments, reference tuples, tuple_cat over reference elements) with generated values; oracle: std::optional / '
             'index+payload models compared after every operation, accessor addresses inside the holder, std::tuple_cat. Non-trivial: an operation whose '
             'source and destination states differ, a manual_box destruct/re-initialise cycle, or a tuple battery over >= 2 tuples; distinct = hash of the decoded case.',
-    'required_tags': ['kind-%d' % k for k in range(10)] + ['tuple-%d' % k for k in range(6)] + ['manual_box', 'variant-pair-d3-s3-op0', 'optional-pair-d0-s0-op2', 'expected-pair-d0-s0-op1', 'self-assign'],
+    'required_tags': ['kind-%d' % k for k in range(11)] + ['extra-%d' % k for k in range(4)] + ['tuple-%d' % k for k in range(6)] + ['manual_box', 'variant-pair-d3-s3-op0', 'optional-pair-d0-s0-op2', 'expected-pair-d0-s0-op1', 'self-assign'],
     'min_cases': {'quick': 20000, 'thorough': 300000},
     'level_text': 'complete enumeration of the (destination state x source state x operation) products plus generated histories against std::optional/std::variant-style models; held on everything generated',
     'level_note': 'trusts the models; moved-from holders are modelled like the std types (state kept, Tracked payload marked)',
@@ -317,7 +317,7 @@ PROPS['C19'] = {
             'Limit in {2,3,8,128} with messages of 1-4 pieces and total length around k*(Limit-1)+-2; oracle: concatenated chunks == message, every chunk shorter than '
             'Limit, begin once, finalize(true) once. Non-trivial: a directive with >= 2 flags, width together with precision, or a boundary value; a fmt spec with width and '
             'conversion, a malformed/out-of-range spec; a logger message that needs >= 2 chunks; distinct = hash of the decoded case.',
-    'required_tags': ['printf', 'fmt', 'positional', 'star-width', 'star-width-negative', 'star-precision', 'star-precision-negative', 'precision0-value0', 'fmt-malformed', 'fmt-position-out-of-range',
+    'required_tags': ['printf', 'fmt', 'positional', 'string-unterminated-with-precision', 'fmt-negative-char', 'star-width', 'star-width-negative', 'star-precision', 'star-precision-negative', 'precision0-value0', 'fmt-malformed', 'fmt-position-out-of-range',
                       'fmt-unclosed', 'fmt-zero-fill', 'logger-2', 'logger-3', 'logger-8', 'logger-128', 'logger-exact-multiple'] + ['conv-' + x for x in 'diuoxXcsp'] + ['len-' + x for x in ('hh', 'h', 'l', 'll', 'z', 't', 'j')]
                      + ['flags-' + x for x in ('+-', '-0', '#-', '#0', '+0', '_-', '_0', '_+', "'-", "'0")],
     'min_cases': {'quick': 100000, 'thorough': 1500000},
@@ -388,7 +388,7 @@ PROPS['C12'] = {
             'guards that say they own it, is_locked()/protects() equal the model, every release goes through the matching call, no lock of a held mutex and no unlock of a free '
             'one; at the end both mutexes are free and #acquire == #release. Non-trivial: an ownership transfer (move/swap/assign) involving an owning guard; distinct = hash '
             'of the decoded history.',
-    'required_tags': ['unique_lock', 'shared_lock', 'qs-lock_guard', 'self-move-assign'],
+    'required_tags': ['unique_lock', 'shared_lock', 'qs-lock_guard', 'self-move-assign', 'ticket-counters-near-wrap'],
     'min_cases': {'quick': 30000, 'thorough': 500000},
     'level_text': 'exhaustive state-pair enumeration plus generated guard histories against an ownership model with an instrumented mutex; spinlocks under a harness-owned scheduler with TSan; held on everything generated',
     'level_note': 'the instrumented mutex models a correct non-recursive mutex as seen by one thread',
@@ -430,7 +430,7 @@ PROPS['C05'] = {
             're-locking a pool lock it holds), completion within the step limit, Policy::map/unmap only with no pool lock held by the caller, after all frees only slabs stay mapped and '
             'numUsedPages() equals what a sequential pool reports for the same slabs. The sequential slab harness adds the lock-hold clause with an instrumented mutex. '
             'Non-trivial: at least one context switch inside a pool call; distinct = hash of (configuration, scripts) - schedules of one script count once.',
-    'required_tags': ['two-threads-constructing-a-slab-of-one-class', 'cross-thread-free', 're-entrant-unmap', 'threads-2', 'threads-3', 'threads-4', 'switches-20+'],
+    'required_tags': ['two-threads-constructing-a-slab-of-one-class', 'cross-thread-free', 're-entrant-unmap', 'map-failure-under-concurrency', 'threads-2', 'threads-3', 'threads-4', 'switches-20+'],
     'min_cases': {'quick': 20000, 'thorough': 400000},
     'level_text': 'schedule-controlled interleavings at lock granularity (random and depth-first over a small scope) under TSan with a serialised live-block oracle; held on everything generated',
     'level_note': 'pre-emption points are lock operations, policy calls and the client\'s mailbox accesses; plain accesses are covered by TSan only; liveness is "within the step limit under the generated schedule"',
